@@ -230,15 +230,25 @@ func (r *repo) apply(op Op) {
 	}
 }
 
+// dates: the author date is the abstract history's date (it need not increase along the log: a rebased commit keeps
+// the day it was written on); the committer date is another clock, years later and strictly increasing with the log
+// (a commit is committed - rebased, applied from a mail - on another day than it was written), so that the two dates
+// of a commit never coincide and the log order is the history order.
+func (r *repo) dates(day, author string) []string {
+	k := r.tick // number of commits made so far, this one included
+	ad := fmt.Sprintf("%sT%02d:%02d:00+0000", day, 8+(k/60)%12, k%60)
+	cd := fmt.Sprintf("%04d-%02d-%02dT12:00:00+0000", 2031+k/336, 1+(k/28)%12, 1+k%28)
+	return []string{"GIT_AUTHOR_NAME=" + author, "GIT_AUTHOR_EMAIL=a@example.org", "GIT_COMMITTER_NAME=Release Bot 9",
+		"GIT_COMMITTER_EMAIL=a@example.org", "GIT_AUTHOR_DATE=" + ad, "GIT_COMMITTER_DATE=" + cd}
+}
+
 func (r *repo) commit(c Commit) {
 	for _, op := range c.Ops {
 		r.apply(op)
 	}
 	r.git(nil, "add", "-A")
 	r.tick++
-	ts := fmt.Sprintf("%sT%02d:%02d:00+0000", c.Date, 8+r.tick/60, r.tick%60)
-	env := []string{"GIT_AUTHOR_NAME=" + c.Author, "GIT_AUTHOR_EMAIL=a@example.org", "GIT_COMMITTER_NAME=Release Bot 9",
-		"GIT_COMMITTER_EMAIL=a@example.org", "GIT_AUTHOR_DATE=" + ts, "GIT_COMMITTER_DATE=" + ts}
+	env := r.dates(c.Date, c.Author)
 	r.git(env, "commit", "-q", "--allow-empty", "-m", c.Subject)
 }
 
@@ -255,9 +265,7 @@ func buildReal(c Case, scratch string) (string, []CommitFact) {
 			r.commit(h)
 			r.git(nil, "checkout", "-q", "main")
 			r.tick++
-			ts := fmt.Sprintf("%sT%02d:%02d:00+0000", h.Date, 8+r.tick/60, r.tick%60)
-			env := []string{"GIT_AUTHOR_NAME=" + h.Author, "GIT_AUTHOR_EMAIL=a@example.org", "GIT_COMMITTER_NAME=Release Bot 9",
-				"GIT_COMMITTER_EMAIL=a@example.org", "GIT_AUTHOR_DATE=" + ts, "GIT_COMMITTER_DATE=" + ts}
+			env := r.dates(h.Date, h.Author)
 			r.git(env, "merge", "-q", "--no-ff", "-m", "Merge side branch", fmt.Sprintf("side%d", i))
 		} else {
 			r.commit(h)
